@@ -142,7 +142,7 @@ class BaseParser:
             return fields[key]
         if key in self.field_alias_map:
             return fields[self.field_alias_map[key]]
-        if not key.islower() and key.lower() in self.case_insensitive_names:
+        if isinstance(key, str) and not key.islower() and key.lower() in self.case_insensitive_names:
             # avoid recursive
             return self._get_field_from(fields, key.lower())
         return None
@@ -163,7 +163,7 @@ class BaseParser:
     def get_attname(self, key: str) -> Optional[str]:
         if key in self.attr_alias_map:
             return self.attr_alias_map[key]
-        if not key.islower() and key.lower() in self.case_insensitive_names:
+        if isinstance(key, str) and not key.islower() and key.lower() in self.case_insensitive_names:
             # avoid recursive
             if key.lower() in self.attr_alias_map:
                 return self.attr_alias_map[key.lower()]
